@@ -617,7 +617,7 @@ fn case_strategy(tier: Tier) -> BoxedStrategy<Case> {
         4 => (0u8..8, idx.clone(), 0u8..4, any::<u8>(), any::<u8>(), any::<u8>()).prop_map(|(t, i, c, s, e, d)| Op::Add(t, i, c, s, e, d)),
         1 => (0u8..8, idx.clone()).prop_map(|(t, i)| Op::Remove(t, i)),
         8 => (meas, prop_oneof![4 => Just(true), 1 => Just(false)], 0u8..3, any::<bool>()).prop_map(|(m, us, mode, two)| Op::Update(m, us, mode, two)),
-        2 => (idx.clone(), proptest::collection::vec(any::<u8>(), 0..4), any::<bool>(), 0u8..3, any::<bool>()).prop_map(|(i, b, us, mode, two)| Op::UpdateOctets(i, b, us, mode, two)),
+        2 => (idx.clone(), prop_oneof![6 => proptest::collection::vec(any::<u8>(), 0..4), 1 => proptest::collection::vec(any::<u8>(), 253..=257)], any::<bool>(), 0u8..3, any::<bool>()).prop_map(|(i, b, us, mode, two)| Op::UpdateOctets(i, b, us, mode, two)),
         3 => (0u8..7, idx.clone(), any::<u8>(), time, 0u8..3, any::<bool>(), 0u8..3).prop_map(|(t, i, f, tm, q, us, mode)| Op::UpdateFlags(t, i, f, tm, q, us, mode)),
         2 => (0u8..8, idx).prop_map(|(t, i)| Op::Get(t, i)),
         1 => (0u8..7, prop_oneof![Just(0u8), Just(1u8), any::<u8>()], any::<bool>(), prop_oneof![Just(0u8), Just(254u8), Just(255u8), Just(1u8), 196u8..=252, any::<u8>()], bits).prop_map(|(k, s, w, v, b)| Op::DefineAttr(k, s, w, v, b)),
